@@ -38,6 +38,8 @@ RULES = {
     "W6": R3.rule_W6,
     "W7": R3.rule_W7,
     "W8": R3.rule_W8,
+    "T14b": R3.rule_T14b,
+    "G10": R3.rule_G10,
     "G9": R3.rule_G9,
     "A15": R3.rule_A15,
     "D13": R3.rule_D13,
@@ -161,7 +163,7 @@ PROPS = {
         "handed the Integer's address). Radix parsing and round-trips are value-level and not decided. Also (N5): the literal parsers hand a parsed integer to the number type only through a conversion whose From impl does not narrow with an `as` cast (an integer literal outside i32 becomes a float, it does not wrap). A CharList(n) header written before a run of Char cells counts the very string whose characters are written (D1c). Also (D10, character accounting in the literal parsers): every iteration of a loop over a literal's characters appends to the output, changes the parser's state, fails or stops; the only documented drops (the brace of a \\u{..} escape, raw line feeds / tabs laying out a single-quoted text) are counted per function, so a byte-list or char-list literal cannot silently lose characters it spells. Also (D12): the builder hands the data object's parse_add_* the literal / symbol token's own text, at most cut at its ends - never filtered or rebuilt - so 'a symbol keeps the name it was written with'. Also (A14): the quote counters of one quoted literal are reset when its token ends, so the next literal's closing quotes are counted from zero. Also (D13): per GarnishDataFactory method the two factories derive what they return from the same sources (the same shared parser), so a literal denotes the same value on both data implementations.",
     },
     "C15": {
-        "rules": ["D2", "D3", "W1", "W2", "D3b", "W6", "W7", "W8", "D1", "D1c", "W9"],
+        "rules": ["D2", "D3", "W1", "W2", "D3b", "W6", "W7", "W8", "D1", "D1c", "W9", "T14b"],
         "claim": "Decides four structural clauses of C15: (D2) every index/slice of BasicGarnishData's raw heap vector is rebased on a "
         "StorageBlock.start (followed through locals, parameters to their call sites, struct fields to their initialisers); (D3) the six "
         "push_to_*_block siblings and the six copy stanzas of reallocate_heap each use one block in every role and agree on the "
@@ -169,27 +171,27 @@ PROPS = {
         "SimpleGarnishData's value list is append-only; (W2) every hand-written Hash impl inside the key of SimpleGarnishData's hash-keyed "
         "constant table feeds the hasher a loss-free encoding of the whole payload (no narrowing cast, rounding, or ignored payload), "
         "the necessary condition for 'a different constant gets a different address' since cache_add never compares the stored value. "
-        "Correctness for every interleaving/growth policy is not decided. Also (D3b): every returning path through reallocate_heap that installs new extents for one block installs them for all six (no shortcut that moves some blocks only). The same (W6) under this property: a returned address is an address written. Also (W7): a block's cursor never passes its size (by-one advance under that block's capacity test, by-n advance under a fit test), so a later push cannot land in the neighbouring table's cells. Also (W8): the constant table of SimpleGarnishData is written only together with the push of the value it names ('an equal constant returns the same address, a different constant a different address' needs every entry to name a cell holding the hashed value). Also (D1 / D1c): the CharList(n) header BasicGarnishData writes counts characters, of the very string whose characters follow it - a header that claims more cells than were written makes the value absorb whatever is pushed next. Also (W9): the SimpleGarnishData methods that add a constant (numbers, characters, bytes, symbols, types, expressions, externals, text and byte-list literals) return the address the interning function returned on every path, so adding an equal constant again returns the same address.",
+        "Correctness for every interleaving/growth policy is not decided. Also (D3b): every returning path through reallocate_heap that installs new extents for one block installs them for all six (no shortcut that moves some blocks only). The same (W6) under this property: a returned address is an address written. Also (W7): a block's cursor never passes its size (by-one advance under that block's capacity test, by-n advance under a fit test), so a later push cannot land in the neighbouring table's cells. Also (W8): the constant table of SimpleGarnishData is written only together with the push of the value it names ('an equal constant returns the same address, a different constant a different address' needs every entry to name a cell holding the hashed value). Also (D1 / D1c): the CharList(n) header BasicGarnishData writes counts characters, of the very string whose characters follow it - a header that claims more cells than were written makes the value absorb whatever is pushed next. Also (W9): the SimpleGarnishData methods that add a constant (numbers, characters, bytes, symbols, types, expressions, externals, text and byte-list literals) return the address the interning function returned on every path, so adding an equal constant again returns the same address. Also (T14b): the association cells of a finished list are sorted (keyed cells in front of the holes) on every path of end_list, so a keyed item reads back through its key whatever its position.",
     },
     "C16": {
-        "rules": ["G4", "T14", "D9", "G4c", "G7", "A13", "G8", "G1l"],
+        "rules": ["G4", "T14", "D9", "G4c", "G7", "A13", "G8", "G1l", "G10", "T14b"],
         "claim": "Decides the 'absent is not an error' clause of C16: inside both implementations of get_list_item / "
         "get_list_item_with_symbol / get_list_len / get_list_item_iter, their list helpers, and the runtime's index_list / "
         "access_with_symbol, the locally constructed errors are exactly the reviewed ones (not-a-list, corrupt cell); any other "
         "constructed error - in particular one that depends on the index value or the item kind - is reported; and every "
         "match-based comparator the data crate hands to a sort or binary search (the association slots of a list, the two symbol "
         "tables) is antisymmetric: mirrored arguments get opposite orderings (T14) - a necessary condition for the sorted prefix the "
-        "key lookup searches. Order, length and that every present key is found are not decided beyond that. Also: match-based sort comparators order two keyed cells ascending by their first payload field, the key the binary search compares (T14); the end handed to Extents::new is a length / exclusive bound, never `len - 1` (D9). A function that hands a caller-supplied number to the data's get_*_item tests it against zero first (G4c, sibling agreement of the four index_* functions) - the data impls clamp a negative number to index 0. Also (G7): wherever a concatenation is taken apart by hand (get_concatenation destructured into two used operands) both operands get the same treatment - neither side is read as a single item while the other is walked on - so look-ups and indexing see the items of a concatenation nested on either side. Also (A13): between start_list and end_list nothing is called that may itself start a list on a data object (SimpleGarnishData builds one list at a time), so a list with an item that needs building - a nested list being copied - keeps its own items in order. And (G8) the walk over a concatenation re-enters for nested concatenations only. Also (G1l): no recursive call cycle runs through the runtime's list look-up functions - a key is looked for among the items of the list (and of the lists a concatenation is made of), not inside items that happen to be collections themselves.",
+        "key lookup searches. Order, length and that every present key is found are not decided beyond that. Also: match-based sort comparators order two keyed cells ascending by their first payload field, the key the binary search compares (T14); the end handed to Extents::new is a length / exclusive bound, never `len - 1` (D9). A function that hands a caller-supplied number to the data's get_*_item tests it against zero first (G4c, sibling agreement of the four index_* functions) - the data impls clamp a negative number to index 0. Also (G7): wherever a concatenation is taken apart by hand (get_concatenation destructured into two used operands) both operands get the same treatment - neither side is read as a single item while the other is walked on - so look-ups and indexing see the items of a concatenation nested on either side. Also (A13): between start_list and end_list nothing is called that may itself start a list on a data object (SimpleGarnishData builds one list at a time), so a list with an item that needs building - a nested list being copied - keeps its own items in order. And (G8) the walk over a concatenation re-enters for nested concatenations only. Also (G1l): no recursive call cycle runs through the runtime's list look-up functions - a key is looked for among the items of the list (and of the lists a concatenation is made of), not inside items that happen to be collections themselves. Also (G10): a caller that matches on the container's type before calling access_with_symbol / access_with_integer and answers 'absent' for the rest lets through every type the accessor itself supports. Also (T14b): the functions that finish a table of association cells sort it on every path that returns Ok.",
     },
     "C11": {
-        "rules": ["T5", "D1", "T15", "W4", "A11", "W2", "G8"],
+        "rules": ["T5", "D1", "T15", "W4", "A11", "W2", "G8", "N6"],
         "claim": "Decides the dispatch clauses of C11: the (type, type) dispatch of data_equal (outer match and the nested slice x slice "
         "match) is symmetric, its catch-all is the constant false, mirrored arms hand the same value roles and typed accessors to the "
         "same helper, and `!=` pushes the negation of the routine `==` pushes; the length that decides 'a single character equals the "
         "one-element list of it' is a character count, never a byte length (D1); the element-wise walk of two sequences loses no element: "
         "no iterator is consulted again (to decide which operand is longer) after a lossy adaptor - zip, take_while, map_while - ran over a "
         "borrow of it, so an operand exactly one element longer is never taken for equal (T15). Reflexivity/transitivity and element-wise "
-        "meaning depend on iterator contents and are not decided. Also (W4): the walk that flattens a concatenation into its item sequence expands every node it meets, without a visited set - a shared sub-sequence counts as often as it is referenced, which structural equality needs. Arms of the equality dispatch that queue component pairs queue them unconditionally (T5 conditional-queue) - no shortcut from the components' types around the dispatch that knows the cross-type equalities; the equality work list itself drains to its mark (A11). Also (W2): values are compared through their addresses' contents, and SimpleGarnishData hands equal-hash constants the same address - the hash that alone keys that table is computed from a loss-free encoding of the whole value, so two different numbers are never conflated into one cell (which would make `==` true for them). Also (G8): lists and concatenations are compared as the flat sequences of their items ONE level deep - in every work-list walk over a concatenation only the Concatenation arm queues onto the work list, so a list that is an item of a list stays one value.",
+        "meaning depend on iterator contents and are not decided. Also (W4): the walk that flattens a concatenation into its item sequence expands every node it meets, without a visited set - a shared sub-sequence counts as often as it is referenced, which structural equality needs. Arms of the equality dispatch that queue component pairs queue them unconditionally (T5 conditional-queue) - no shortcut from the components' types around the dispatch that knows the cross-type equalities; the equality work list itself drains to its mark (A11). Also (W2): values are compared through their addresses' contents, and SimpleGarnishData hands equal-hash constants the same address - the hash that alone keys that table is computed from a loss-free encoding of the whole value, so two different numbers are never conflated into one cell (which would make `==` true for them). Also (G8): lists and concatenations are compared as the flat sequences of their items ONE level deep - in every work-list walk over a concatenation only the Concatenation arm queues onto the work list, so a list that is an item of a list stays one value. Also (N6): number equality is exact - no tolerance test in the number implementation, PartialEq included (0.1 + 0.2 == 0.3 must stay false; a tolerance breaks transitivity).",
     },
     "C19": {
         "rules": ["T8", "W1", "D2", "G9"],
@@ -258,13 +260,13 @@ PROPS = {
         "are not decided. Also (A4 unit-without-offer): in a function that defers undefined combinations, no path answers unit having neither asked the host nor read / built any value (flags-only interpretation); `type_cast`'s defined cast of unit is the one reviewed exception. A declined offer is answered with the unit value made by add_unit on every path, never with a placeholder address (A4 declined-without-unit). Also (G3b, offer matrix): for every deferring instruction and every tuple of the 21 operand types, abstract interpretation of the handler under that type assumption shows an Ok outcome without a defer_op offer only for the tuples the language defines (spec/defined_operands.json) - so no undefined combination is answered (with unit or anything else) without the host having been asked. Also (A12): the data objects' defer_op returns the host's answer unchanged, so 'declined' reaches the runtime exactly when the host declined. Also (W5): every function that builds a SimpleGarnishData from another one carries over each function-pointer field (resolver, op handler), so a copy made for a run still reaches the host's deferred-operation callback.",
     },
     "C10": {
-        "rules": ["T4", "T9", "A1", "T11", "T20"],
+        "rules": ["T4", "T9", "A1", "T11", "T20", "D7"],
         "claim": "Decides four clauses of C10: (T4) the seven testing instructions (?> !> && || ^^ !! ??) classify all 21 value types "
         "identically with exactly {False, Unit} false - computed from the behaviour of their MIR under each type fact (21 contexts each, "
         "441 for ^^), not from the spelling of their arms; (A1) && / || push a boolean only on the edge that does not jump; (T9) the "
         "right operand of && / || and the arm of ?> / !> are compiled out of line behind the jump, re-joined through a jump-table "
         "entry, and the && / || right root ends in Tis; (T11) the loop closing a root walks the whole end list, so the JumpTo that "
-        "re-joins after the out-of-line operand / arm is always emitted. Order and at-most-one-arm in else-chains are not decided. The Tis that makes the out-of-line right operand of && / || a boolean is added on every path (must-pass-through before the right root is constructed), never 'unless the operand is already boolean'. Also (T20): no handler of the builder decides what to emit from the instruction it reads back from the linear stream (the only reader is the root-closing code), so a `??` / `!!` / logical result is classified on every path that reaches it, not only on the fall-through path.",
+        "re-joins after the out-of-line operand / arm is always emitted. Order and at-most-one-arm in else-chains are not decided. The Tis that makes the out-of-line right operand of && / || a boolean is added on every path (must-pass-through before the right root is constructed), never 'unless the operand is already boolean'. Also (T20): no handler of the builder decides what to emit from the instruction it reads back from the linear stream (the only reader is the root-closing code), so a `??` / `!!` / logical result is classified on every path that reaches it, not only on the fall-through path. Also (D7): only the else-chain handler forwards a node's conditional_parent, so a conditional in parentheses under && / || keeps its own arm (otherwise the arm is never compiled and its jump entry stays 0).",
     },
     "C17": {
         "rules": ["A4", "A1", "T2", "T10", "W5", "W6", "A12", "D12", "A15"],
